@@ -31,8 +31,9 @@ def gen_cases(tier, seed):
     n = {"quick": 48, "thorough": 900}[tier]
     cases = [{"type": "sigs", "seed": rnd.randrange(10**6), "n": 40} for _ in range(n)]
     cases.append({"type": "outputs", "seed": rnd.randrange(10**6)})
-    for i in range({"quick": 2, "thorough": 12}[tier]):
-        cases.append({"type": "e2e", "seed": rnd.randrange(10**6)})
+    for i in range({"quick": 6, "thorough": 24}[tier]):
+        # through every broker's wire form (an argument-less job's payload is the empty string there)
+        cases.append({"type": "e2e", "seed": rnd.randrange(10**6), "kind": ["mem", "redis", "rabbit"][i % 3]})
     return cases
 
 
@@ -287,11 +288,12 @@ async def e2e(loop, case, out, stats, fps):
     from rv.rigs import Rig
 
     rnd = random.Random(case["seed"])
-    rig = Rig("mem", loop)
+    rig = Rig(case.get("kind", "mem"), loop, seed=case["seed"])
     try:
         conn = rig.make_connection("p1")
         await conn.connect()
         await conn.message_broker.queue_declare("default")
+        stats["e2e_on_" + case.get("kind", "mem")] += 1
         r = Router()  # RouterDefaults -> Config.CONVERTER -> DefaultConverter
         plans = []
         for i in range(12):
@@ -319,7 +321,10 @@ async def e2e(loop, case, out, stats, fps):
             await Job(f"e{i}", id_=f"j{i}", args=args, store_result=False, _connection=conn).enqueue()
             plans.append((i, spec, mode, args, expect_run, calls))
         w = Worker(routers=[r], messages_limit=len(plans), tasks_limit=1, handle_signals=[], _connection=conn)
-        await asyncio.wait_for(w.run(), 60)
+        try:
+            await asyncio.wait_for(w.run(), 60)
+        except asyncio.TimeoutError:
+            pass  # (judged below: whoever did not run shows up there)
         for i, spec, mode, args, expect_run, calls in plans:
             stats["e2e_default_converter"] += 1
             stats["bindings_judged"] += 1
